@@ -391,7 +391,7 @@ fn run_stream(prop: &Property, sub: &Sub, tier: Tier, seed: u64, w: usize, slot:
                 }
             }
         });
-        drop(body);
+        let _ = body;
         res.failure = fail;
         return res;
     }
@@ -402,7 +402,7 @@ fn run_stream(prop: &Property, sub: &Sub, tier: Tier, seed: u64, w: usize, slot:
     };
     let per = total / STREAMS as u64 + if (w as u64) < total % STREAMS as u64 { 1 } else { 0 };
     if per == 0 {
-        drop(body);
+        let _ = body;
         return res;
     }
     let mut cfg = Config::default();
@@ -417,7 +417,7 @@ fn run_stream(prop: &Property, sub: &Sub, tier: Tier, seed: u64, w: usize, slot:
     let mut runner = TestRunner::new_with_rng(cfg, rng);
     let strat = proptest::collection::vec(proptest::arbitrary::any::<u8>(), 0..=sub.max_len);
     let out = runner.run(&strat, |case| body(&case).map_err(TestCaseError::fail));
-    drop(body);
+    let _ = body;
     match out {
         Ok(()) => {}
         Err(TestError::Fail(reason, minimal)) => {
